@@ -792,6 +792,8 @@ class EvalMixin(object):
         if isinstance(base, VRef):
             cell = st.heap[base.oid]
             if isinstance(cell, HObj):
+                if (cell.cls, name) in self.unit.properties:
+                    return self.unit.properties[(cell.cls, name)](self, base, st)
                 if name in cell.f:
                     return cell.f[name]
                 m = self.obj_method(base, cell, name, st, node)
